@@ -690,7 +690,10 @@ def predict_externalize_bytes_for_collector(out: OutputCollector, config: Extern
     size = data_ab.batch.get_total_buffer_size()
     if size < config.externalize_threshold_bytes:
         return 0
-    return size
+    # Externalisation fires.  ``0`` means "nothing will be uploaded" to every
+    # caller, so never report it for a zero-byte batch (threshold 0): the
+    # uploaded IPC stream is never empty.
+    return max(size, 1)
 
 
 def predict_externalize_bytes_for_batch(batch: pa.RecordBatch, config: ExternalLocationConfig) -> int:
@@ -707,7 +710,7 @@ def predict_externalize_bytes_for_batch(batch: pa.RecordBatch, config: ExternalL
     size = batch.get_total_buffer_size()
     if size < config.externalize_threshold_bytes:
         return 0
-    return size
+    return max(size, 1)  # see predict_externalize_bytes_for_collector
 
 
 def maybe_externalize_collector(
